@@ -23,6 +23,7 @@ fn eval_be(c: &[SF], z: SF) -> SF {
     acc
 }
 fn keys(max_degree: usize, pts: usize, seed: u64) -> (CommitterKey<ToyPairing>, SF) {
+    let seed = seed ^ crate::engine::explore::replay_salt();
     let tau = SF::rand(&mut StdRng::seed_from_u64(seed + 77));
     let ck = CommitterKey::<ToyPairing>::new(max_degree, pts, &mut StdRng::seed_from_u64(seed + 77));
     (ck, tau)
